@@ -120,15 +120,34 @@ func mergeMappings(mapping map[string]any, other map[string]any, p tree.Path) (m
 
 // logging driver options are merged only when both compose file define the same driver
 func mergeLogging(c any, o any, p tree.Path) (any, error) {
-	config := c.(map[string]any)
-	other := o.(map[string]any)
+	config, ok := c.(map[string]any)
+	if !ok {
+		return nil, fmt.Errorf("cannot override %s: logging must be a mapping", p)
+	}
+	other, ok := o.(map[string]any)
+	if !ok {
+		return nil, fmt.Errorf("cannot override %s: logging must be a mapping", p)
+	}
 	// we override logging config if source and override have the same driver set, or none
 	d, ok1 := other["driver"]
 	o, ok2 := config["driver"]
-	if d == o || !ok1 || !ok2 {
+	if !ok1 || !ok2 || sameScalar(d, o) {
 		return mergeMappings(config, other, p)
 	}
 	return other, nil
+}
+
+// sameScalar compares two yaml values without panicking on uncomparable (mapping, sequence) values
+func sameScalar(a, b any) bool {
+	switch a.(type) {
+	case map[string]any, map[any]any, []any:
+		return false
+	}
+	switch b.(type) {
+	case map[string]any, map[any]any, []any:
+		return false
+	}
+	return a == b
 }
 
 func mergeBuild(c any, o any, path tree.Path) (any, error) {
